@@ -12,7 +12,7 @@ from vp.confmodel import SidModel, KeySpec, SIP
 
 # Free names. The small pool makes names collide / share prefixes; the wide one stresses typing.
 SMALL_NAMES = ["x", "y", "x-1", "x.b", "x_y", "x+", "y2", "xx", "X", "a", "s", "w", "v001"]
-WIDE_ALPHABET = "abxyz019_-.+ 'Aé\\\"~!@$^()[]{}|;=&%#"
+WIDE_ALPHABET = "abxyz019_-.+ 'Aé\\\"~!@$^()[]{}|;=&%#\u0301"   # the last one is a combining accent (decomposed spelling)
 JUNK_SEGMENTS = ["", " ", "bla", "hamlet ", "V001", "v01", "v0001", "sq1", "sh001", "A", "S", "**", "***", "*", ">", "<",
                  "x*", "*x", "v*", "ma,mb", "x,y", ",", "a,s", "\n", "x\n", "\nx", "\t", "\r", "\x00", "x\x00",
                  "é", "x y", ".", "..", "%20", "None"]
